@@ -287,7 +287,8 @@ pub struct Finish<'a> {
     /// decode a class code into a readable name
     pub class_name: &'a dyn Fn(u64) -> String,
     /// classes that must be populated (machinery failure if not)
-    pub required: Vec<u64>,
+    /// each group needs at least one populated class
+    pub required: Vec<Vec<u64>>,
     /// re-execute a witness; returns Some((site, detail)) if it violates
     pub replay: &'a dyn Fn(&Value) -> Vec<(String, String)>,
 }
@@ -326,11 +327,11 @@ pub fn finish(f: Finish) -> i32 {
     let mut machinery_fail: Vec<String> = Vec::new();
 
     // non-vacuity gate
-    for code in &f.required {
-        if sh.classes.get(code).copied().unwrap_or(0) == 0 {
+    for group in &f.required {
+        if !group.iter().any(|code| sh.classes.get(code).copied().unwrap_or(0) > 0) {
             machinery_fail.push(format!(
                 "required coverage class empty: {}",
-                (f.class_name)(*code)
+                group.iter().map(|c| (f.class_name)(*c)).collect::<Vec<_>>().join(" | ")
             ));
         }
     }
@@ -406,6 +407,7 @@ pub fn finish(f: Finish) -> i32 {
     cov.insert("samples".into(), Value::Array(samples));
     cov.insert("exhaustive".into(), json!(f.exhaustive));
     cov.insert("classes_populated".into(), json!(named.len()));
+    cov.insert("required_class_groups_checked".into(), json!(f.required.len()));
     cov.insert("class_populations".into(), Value::Object(classes));
     cov.insert("distinct_observed_outcomes".into(), json!(sh.outcomes.len()));
     cov.insert("stages".into(), Value::Array(sh.stages.clone()));
